@@ -31,9 +31,10 @@ Hypothesis Htv : 0 <= tv.
 Hypothesis Hpos : 0 < cv + tv.
 Hypothesis Hcl : 0 < cfg_confidence_level cfg < 1.
 
-Lemma se_textbook ev a b : se_of ev a cn b tn = tb_se ev a cn b tn.
+Lemma se_textbook ev a b : 0 <= a -> 0 <= b -> se_of ev a cn b tn = tb_se ev a cn b tn.
 Proof.
-  unfold se_of, tb_se, pooled_var. destruct ev; [|reflexivity]. f_equal. field. lra.
+  intros Ha Hb. rewrite se_of_plain by assumption.
+  unfold se_plain, tb_se, pooled_var. destruct ev; [|reflexivity]. f_equal. field. lra.
 Qed.
 Lemma null_textbook ev ut a b : null_of fam ev ut a cn b tn = tb_ref fam ev ut a cn b tn.
 Proof. reflexivity. Qed.
@@ -51,13 +52,13 @@ Proof.
   destruct (null_of_laws fam (cfg_equal_var cfg) (cfg_use_t cfg) cv cn tv tn HF Hcn Htn Hcv Htv Hpos) as [HL HS].
   unfold R0, T0, tb_of_stats. destruct (cfg_alternative cfg) eqn:Ha.
   - rewrite (analyze_stats_two_sided fam cfg cm cv cn tm tv tn Ha). cbn.
-    rewrite !se_textbook, !null_textbook in *. rewrite (L_sf _ HL).
+    rewrite !se_textbook, !null_textbook in * by assumption. rewrite (L_sf _ HL).
     repeat split; try reflexivity; f_equal; ring.
   - rewrite (analyze_stats_greater fam cfg cm cv cn tm tv tn Ha). cbn.
-    rewrite !se_textbook, !null_textbook in *. rewrite (L_sf _ HL), (isf_neg_ppf _ HL HS _ Hcl).
+    rewrite !se_textbook, !null_textbook in * by assumption. rewrite (L_sf _ HL), (isf_neg_ppf _ HL HS _ Hcl).
     repeat split; try reflexivity; f_equal; ring.
   - rewrite (analyze_stats_less fam cfg cm cv cn tm tv tn Ha). cbn.
-    rewrite !se_textbook, !null_textbook in *.
+    rewrite !se_textbook, !null_textbook in * by assumption.
     repeat split; try reflexivity; f_equal; ring.
 Qed.
 
@@ -86,16 +87,16 @@ Proof.
   { intros u. rewrite exp_plus, exp_ln by exact Hratio. reflexivity. }
   unfold R0, T0, tb_of_stats. destruct (cfg_alternative cfg) eqn:Ha.
   - rewrite (analyze_stats_two_sided fam cfg cm cv cn tm tv tn Ha). cbn.
-    rewrite Hw1, Hw2, !se_textbook, !null_textbook.
+    rewrite Hw1, Hw2, !se_textbook, !null_textbook by assumption.
     split; f_equal; f_equal.
     + unfold Rdiv at 1. rewrite <- exp_Ropp, Hexp. f_equal. ring.
     + rewrite Hexp. f_equal. ring.
   - rewrite (analyze_stats_greater fam cfg cm cv cn tm tv tn Ha). cbn.
-    rewrite Hw1, Hw2, !se_textbook, !null_textbook.
+    rewrite Hw1, Hw2, !se_textbook, !null_textbook by assumption.
     split; [|reflexivity]. f_equal. f_equal.
     rewrite <- null_textbook, (isf_neg_ppf _ HL HS _ Hcl), Hexp. f_equal. ring.
   - rewrite (analyze_stats_less fam cfg cm cv cn tm tv tn Ha). cbn.
-    rewrite Hw1, Hw2, !se_textbook, !null_textbook.
+    rewrite Hw1, Hw2, !se_textbook, !null_textbook by assumption.
     split; [reflexivity|]. f_equal. f_equal. rewrite Hexp. f_equal. ring.
 Qed.
 End StatsLevel.
@@ -121,7 +122,7 @@ Lemma analyze_no_covariate :
       (smean (linY cfg lc) lc) (svar (linY cfg lc) lc) (cnt lc)
       (smean (linY cfg lt) lt) (svar (linY cfg lt) lt) (cnt lt).
 Proof.
-  unfold rom_analyze_aggregates, agg_with_zero_div.
+  unfold rom_analyze_aggregates, agg_with_zero_div, agg_wrap.
   rewrite (covariate_coef_none cfg _ Hnc Hdc).
   assert (Hx_c : smean (ocol (cfg_denom_covariate cfg)) lc <> 0) by (rewrite Hdc, smean_one by exact Hlc; lra).
   assert (Hx_t : smean (ocol (cfg_denom_covariate cfg)) lt <> 0) by (rewrite Hdc, smean_one by exact Hlt; lra).
